@@ -881,7 +881,13 @@ class SymEnv:
         return Sym(p, _join_flavor(base, expo))
 
     def concretize_index(self, x):
-        raise HarnessError("symbolic number used as a container index; harness must fork with choose()")
+        """a symbolic integer used as a container index / range bound: fork over its feasible small values"""
+        if not x.is_int:
+            raise TypeError("'float' object cannot be interpreted as an integer")
+        for c in list(range(0, 33)) + list(range(-1, -9, -1)):
+            if self.branch(x.t == c):
+                return c
+        raise HarnessError("symbolic integer used as an index outside the modelled range -8..32")
 
     # ---- obligations -----------------------------------------------------------------------
     def claim(self, name, cond, detail=None):
